@@ -1,15 +1,16 @@
 """C09 - see properties.jsonl; DESIGN.md section 5."""
 from ._generic import run_property
 
-EXPLANATION = 'Bounded stand-in: model-based histories over {write, append, overwrite, remove_row_groups, write_row_groups(sort)} with directory/metadata agreement after every step.'
+EXPLANATION = 'Mixed. P: writer.write_multi, find_max_part and api.part_ids executed symbolically from their real sources on an I/O effect trace: every file an append opens for writing before the summary files has a part number different from that of EVERY referenced file (for any number of existing row groups and any part numbering, holes included), data files are only opened wb, and the summary files are written once, after the part loop - the invariant is checked at every I/O call, so it holds wherever the k-th call fails. B (labelled bounded): model-based histories over {write, append, overwrite, remove_row_groups, write_row_groups(sort)} with directory/metadata agreement after every step.'
 
 
 def p_parts():
-    return []
+    from ._parts import p_parts as p_partnames
+    return [p_partnames]
 
 
 def run(ctx):
-    return run_property(ctx, 'exploration', EXPLANATION, p_parts=p_parts(), b_modules=['c09_model'],
+    return run_property(ctx, 'other', EXPLANATION, p_parts=p_parts(), b_modules=['c09_model'],
                         assumptions=["pandas / numpy / cramjam behaviour inside every opaque value",
                                      "the oracle (plain pandas / the spec library under /verif/spec) is a faithful reading of the property"],
                         trusted=["bounded layer: enumerated inputs only; nothing outside the stated bound is covered"])
